@@ -98,7 +98,11 @@ def build_case(ch: explore.Chooser, spec: str):
     L["folders"] = folders
     L["chains"] = chains_
     L["numunpack_omit"] = [True, False][ch.choose(2, "numunpack-always")]
+    L["substreams_omit"] = bool(ch.choose(2, "substreams-section-omitted"))  # takes effect with one stream per folder and no substream CRCs
+    L["startpos"] = bool(ch.choose(2, "startpos-property"))
     L["crc"] = ch.pick(["substream", "folder", "none", "both", "partial"], "crc")
+    if L["substreams_omit"] and L["crc"] not in ("folder", "none"):
+        L["crc"] = "folder"  # (without a SubStreamsInfo section there is no place for per-substream CRCs)
     L["pack_crc"] = ch.pick([False, True, "partial"], "pack-crc")
     L["packpos"] = ch.pick([0, 1, 7, 4096], "packpos")
     L["dummy"] = ch.pick([None, 0, 1, 2, 3, 4, 5, 6, 7], "dummy")
@@ -347,7 +351,7 @@ def main(tier="quick", seed=0, only=None):
             f"logical archives: every ordered list of <= {3 if tier == 'quick' else 4} entries over {{file, zero-length substream, empty file, directory, "
             "symlink}} plus longer interleavings; layouts: default (one solid LZMA2 folder, per-file CRCs, raw header) with EVERY single deviation "
             "for every list, and every PAIR of deviations for the richer lists, over: every composition into folders, 18 coder chains, second "
-            "folder with another chain, a file-less folder (NumUnpackStream 0) first / in the middle / last, NumUnpackStream always written, CRC at substream/folder/none/both/every-other-substream, packed CRCs (all / every other stream), pack gap 1/7/4096, "
+            "folder with another chain, a file-less folder (NumUnpackStream 0) first / in the middle / last, NumUnpackStream always written, the SubStreamsInfo section left out altogether, a kStartPos property, CRC at substream/folder/none/both/every-other-substream, packed CRCs (all / every other stream), pack gap 1/7/4096, "
             "kDummy 0..7, EmptyFile always, no all-defined shortcut, header raw/LZMA/LZMA2/COPY/AES/LZMA2+AES with/without CRC, reverse coder "
             "order, AES IV 8/16/1 bytes and salt, undefined mtime/attributes/ctime+atime/all per entry, Windows-style attribute words (no UNIX extension: DIRECTORY / ARCHIVE / READONLY bits) per entry, trailing bytes; plus every third-party "
             "fixture. Oracle: names, is_directory/is_symlink, sizes, mtime/ctime/atime, attributes, extractall(factory) bytes and on-disk "
